@@ -349,6 +349,20 @@ class Interp:
                 whence = args[1] if len(args) > 1 else kw.get("whence")
                 if whence is not None and norm(whence) in ("1", "os.SEEK_CUR", "io.SEEK_CUR", "SEEK_CUR"):
                     return Raw(node=call, op="seek", nbytes=self.ev(args[0]))
+                # An absolute target that does not come from a position taken in this method (no tell()) names a fixed place of the
+                # STREAM, not of the block: right only for a block that starts at byte 0, and no block of a TDF file does
+                # (header 64 + table >= 288 bytes come first).  Definite for every property that reads or writes blocks in files.
+                tgt = args[0] if args else kw.get("offset", kw.get("pos"))
+                names = {x.id for x in ast.walk(tgt) if isinstance(x, ast.Name)} if tgt is not None else {"?"}
+                from_tell = any(isinstance(x, ast.Call) and isinstance(x.func, ast.Attribute) and x.func.attr == "tell" for x in ast.walk(tgt)) if tgt is not None else True
+                local_or_param = {n for n in names if n in self.env or n in getattr(self.func, "params", ())}
+                if (whence is None or norm(whence) in ("0", "os.SEEK_SET", "io.SEEK_SET", "SEEK_SET")) and tgt is not None and not from_tell and not local_or_param \
+                        and self.func.name in ("_write", "_build") and not any(isinstance(x, ast.Attribute) and isinstance(x.value, ast.Name) and x.value.id == "self" for x in ast.walk(tgt)):
+                    from .report import DefiniteViolation
+                    raise DefiniteViolation("codec-call-shape", self.m.path.name, self.func.qualname, call,
+                                            f"`{norm(call)}` moves the stream to a fixed absolute position inside a block codec: it lands inside this block only when the block starts at byte 0 "
+                                            "of the stream - in a TDF file (header and table come first) it jumps out of the block, so what is read / written there belongs to something else",
+                                            construct=f"{self.func.qualname} absolute seek", props=("C01", "C02", "C03", "C04", "C05", "C06", "C09", "C10", "C12", "C13", "C14", "C15"))
                 self.err(call, "absolute seek inside a codec method is not modelled")
             if f.attr in ("flush", "tell", "close"):
                 return None
